@@ -72,6 +72,27 @@ pub fn gen_world(seed: u64, idx: u64, s: &dyn SuiteOps) -> World {
         }
     }
     b.interleave(&mut g, threads);
+    // the key service rotates the key behind an externally held setup: the setup still
+    // caches (and must keep reporting) its own public key; what it serves from now on is
+    // another key, so new registrations there can no longer log in — and must not be told
+    // a key that is not the setup's
+    if hsm && g.chance(1, 2) {
+        b.push(Op::RotateHsmKey { to: s_other });
+        let (r2, ops) = b.reg_ops(&mut g, s_real, &pw, &pw, b"after-rotation", WIds::default(), ksf.clone(), false);
+        for o in ops {
+            b.push(o);
+        }
+        for rec in [r.record, r2.record] {
+            let old = rec == r.record;
+            let c: Vec<u8> = if old { cred.clone() } else { b"after-rotation".to_vec() };
+            let sids = if old { mk(&mut g, Some(rec), s_real) } else { WIds::default() };
+            let cids = if old { mk(&mut g, Some(rec), s_real) } else { WIds::default() };
+            let (_, ops) = b.login_ops(&mut g, s_real, Some(rec), &pw, &pw, &c, ctx.clone(), ctx.clone(), sids, cids, ksf.clone(), false);
+            for o in ops {
+                b.push(o);
+            }
+        }
+    }
     if hsm && g.chance(1, 2) {
         b.w.knobs.hsm_handle = true;
     }
@@ -80,7 +101,7 @@ pub fn gen_world(seed: u64, idx: u64, s: &dyn SuiteOps) -> World {
 
 pub fn run(ctx: &Ctx) -> Report {
     let mut rep = Report::new(
-        "per world: real setup S (direct or SimHsm key), another server T, thief S' = ServerSetup::deserialize(seed(S) ‖ sk(T) ‖ fake_sk(S)); one registration at S (explicit or default/explicit-default identities); interleaved logins served by S (must succeed and report S's key), by S' and by T (client must refuse); Model A + reported server_s_pk postconditions. non-trivial = contains a predicted rejection",
+        "per world: real setup S (direct or SimHsm key), another server T, thief S' = ServerSetup::deserialize(seed(S) ‖ sk(T) ‖ fake_sk(S)); one registration at S (explicit or default/explicit-default identities); interleaved logins served by S (must succeed and report S's key), by S' and by T (client must refuse); Model A + reported server_s_pk postconditions; in half of the SimHsm worlds the key service then rotates the key behind the setup (`RotateHsmKey`): later registrations must still be told the setup's own key and logins served under the rotated key must be refused. non-trivial = contains a predicted rejection",
     );
     let mut suites: Vec<&'static dyn SuiteOps> = SIM_SUITES.to_vec();
     suites.extend(ID_SUITES.iter().step_by(ctx.pick(4, 1)));
